@@ -211,6 +211,18 @@ class Interp:
             if a is not None:
                 return self.ev(e.body if a else e.orelse, p)
             return Sym(('ite', _t(t), _t(self.ev(e.body, p)), _t(self.ev(e.orelse, p))))
+        if isinstance(e, (ast.SetComp, ast.DictComp)) and len(e.generators) == 1:
+            g = e.generators[0]
+            it = self.ev(g.iter, p)
+            saved = dict(p.env)
+            self._bind_loop(g.target, it, p)
+            conds = tuple(_t(self.ev(c, p)) for c in g.ifs)
+            if isinstance(e, ast.SetComp):
+                t = ('setcomp', _t(self.ev(e.elt, p)), _t(it)) + conds
+            else:
+                t = ('dictcomp', _t(self.ev(e.key, p)), _t(self.ev(e.value, p)), _t(it)) + conds
+            p.env = saved
+            return Sym(t)
         if isinstance(e, (ast.ListComp, ast.GeneratorExp)):
             if len(e.generators) != 1:
                 return Sym(('expr', norm(e)))
@@ -526,3 +538,23 @@ def _compare(op, a, b):
         pos = {'ne': 'eq', 'isnot': 'is', 'notin': 'in'}[name]
         return Sym(('not', (pos, _t(a), _t(b))))
     return Sym((name, _t(a), _t(b)))
+
+
+def contains(term, sub):
+    """sub occurs inside term."""
+    if term == sub:
+        return True
+    if isinstance(term, tuple):
+        return any(contains(x, sub) for x in term)
+    return False
+
+
+def find(term, pred):
+    """All sub-terms satisfying pred."""
+    out = []
+    if isinstance(term, tuple):
+        if pred(term):
+            out.append(term)
+        for x in term:
+            out += find(x, pred)
+    return out
